@@ -12,7 +12,7 @@ from __future__ import annotations
 import itertools
 
 from harness.c08 import lower, same_ci, sym_char
-from symex.poly import pall_in, pand, pconcat, peq, pimplies, plen, pnone_in, pnot, por, pstr
+from symex.poly import pall_in, pand, pconcat, pcontains, peq, pimplies, plen, pnone_in, pnot, por, pstr
 
 PROPERTY = "C16"
 BOUNDS = {
@@ -22,7 +22,7 @@ BOUNDS = {
 }
 STUBS = ["none"]
 ASSUMPTIONS = ["date-valued properties are not exercised (datetime is C)"]
-OUTSIDE = ["a WWW-Authenticate challenge with neither token nor parameters", "datetimes with a non-UTC offset in the date properties", "content_security_policy and mimetype_params views (same CallbackDict mechanism as cache_control)", "longer histories"]
+OUTSIDE = ["a WWW-Authenticate challenge with neither token nor parameters", "datetimes with a non-UTC offset in the date properties", "content_security_policy view (same CallbackDict mechanism as cache_control)", "longer histories"]
 
 SET_PROPS = ["vary", "allow", "content_language"]
 SET_HEADER = {"vary": "Vary", "allow": "Allow", "content_language": "Content-Language"}
@@ -104,7 +104,7 @@ def body_set_view(I, X, prop="vary", ops=("add", "remove")):
     return ok, {"trace": trace, "header": hdr}
 
 
-CC_OPS = ["max_age", "no_store-on", "no_store-off", "private", "del-max_age", "public-none", "direct-edit"]
+CC_OPS = ["max_age", "no_store-on", "no_store-off", "no_store-falsy", "private", "del-max_age", "public-none", "direct-edit"]
 
 
 def body_cache_control(I, X, ops=("max_age", "private")):
@@ -125,6 +125,10 @@ def body_cache_control(I, X, ops=("max_age", "private")):
             model["no-store"] = None
         elif op == "no_store-off":
             I.setattr(cc, "no_store", False)
+            model.pop("no-store", None)
+        elif op == "no_store-falsy":
+            # boolean directives are set by truthiness: 0 / '' switch them off like False
+            I.setattr(cc, "no_store", X.choice(f"falsy{j}", [0, ""]))
             model.pop("no-store", None)
         elif op == "private":
             I.setattr(cc, "private", "x")
@@ -283,6 +287,27 @@ def body_scalar(I, X, prop="content_length"):
     return ok, {"header": hdr}
 
 
+def body_mimetype_params(I, X, key="x_foo", n=1):
+    """the mimetype_params view writes back exactly the parameter names it holds (also names
+    with an underscore); a fresh view equals the held one"""
+    from werkzeug.sansio.response import Response
+
+    resp = Response(mimetype="text/plain")
+    v = X.str("v", n, minlen=n, maxcp=0x7A)
+    X.assume(pall_in(v, [(0x30, 0x39), (0x61, 0x7A)]))
+    X.assume(plen(v) > 0)
+    view = I.getattr(resp, "mimetype_params")
+    I.call(view.__setitem__, (key, v))
+    hdr = I.call(resp.headers.get, ("Content-Type",))
+    fresh = I.getattr(resp, "mimetype_params")
+    held = dict(I.dict_items(view))
+    again = dict(I.dict_items(fresh))
+    ok = pand(key in again and peq(again.get(key), v), len(again) == len(held), pcontains(hdr, pconcat(key, "=", v)))
+    for k2 in held:
+        ok = pand(ok, k2 in again)
+    return ok, {"header": hdr, "fresh": sorted(again)}
+
+
 def body_date_prop(I, X, prop="last_modified", month=2, aware=True):
     """date-valued properties (date, last_modified, expires, retry_after): assigning a
     datetime writes the IMF-fixdate text of that instant and the property reads back as the same
@@ -338,6 +363,9 @@ def obligations(tier, seed):
     for ops in itertools.product(["set", "unset", "set-length-none", "set-unsatisfied"], repeat=k):
         out.append({"name": f"content_range[{'+'.join(ops)}]", "body": "body_content_range", "params": {"ops": list(ops)},
                     "opts": {"budget_s": 600, "ctx": ctx}, "witness": ops[:2] == ("set", "unset")})
+    for key in ("x_foo", "a-b", "charset"):
+        out.append({"name": f"mimetype_params[{key}]", "body": "body_mimetype_params", "params": {"key": key, "n": 2},
+                    "opts": {"budget_s": 600, "ctx": ctx}})
     for prop in ("date", "last_modified", "expires", "retry_after"):
         for month, aware in ([(2, True), (11, False)] if quick else [(m, a) for m in (1, 2, 6, 12) for a in (True, False)]):
             out.append({"name": f"date_prop[{prop},month={month},aware={aware}]", "body": "body_date_prop", "params": {"prop": prop, "month": month, "aware": aware},
